@@ -123,7 +123,11 @@ SIG_C05 = {"read-step-without-read-lock", "lock-acquired-while-held", "lock-acqu
            "data-frame-by-non-owner-of-message", "saw-closed-before-close", "closed-twice", "closed-post-without-pre",
            "close-bookkeeping", "new-message-inside-message", "continuation-without-message",
            "peer-received-corrupt-message", "message-delivered-twice", "per-writer-order-broken",
-           "acknowledged-message-never-arrived", "library-reader-message-mismatch", "data-race", "panic"}
+           "acknowledged-message-never-arrived", "library-reader-message-mismatch", "data-race", "panic",
+           # "the emitted stream stays well-formed" under concurrency: the frame grammar of what the concurrent actors emitted
+           # (e.g. a control frame from another goroutine inheriting header state of the data frame written just before it)
+           "rsv1-on-control-frame", "rsv1-on-continuation", "rsv2-or-rsv3-set", "fragmented-control-frame", "header-undecodable",
+           "masking-wrong-for-role", "length-not-minimally-encoded", "unknown-opcode", "rsv1-without-negotiated-deflate"}
 SIG_C16 = {"second-close-frame", "data-frame-after-close-frame"}
 SIG_C02 = {"masking-wrong-for-role", "rsv2-or-rsv3-set", "length-not-minimally-encoded", "unknown-opcode",
            "fragmented-control-frame", "control-frame-longer-than-125", "rsv1-on-control-frame", "close-body-not-sendable",
@@ -432,6 +436,9 @@ def c09(ctx, replay):
     # with the 5 s timers every call returns; with NO timer CloseNow returns and a closed connection unblocks every call
     runs = [("shut-prompt", "Close+CloseNow+CloseRead: CloseNow returns and closed unblocks all calls with no timer at all"),
             ("pong-prompt", "Ping stalled in its frame write, pongs arriving early and twice, peer not reading: CloseNow returns and closed unblocks all calls with no timer")]
+    # the peer stops reading while a Ping (Background context) is stalled in its frame write: Close's own frame, and the pong the
+    # reader owes, are written under 5 s contexts that also bound the wait for the frame lock -- with them every call returns
+    runs.append(("stall-bounded", "peer not reading, Ping stalled in its write: Close terminates and all calls return with the 5 s control-write timer"))
     if not ctx.quick():
         runs.append(("shut-bounded", "Close+CloseNow+CloseRead: all return with the 5 s timers only (no 15 s backstop)"))
     for n, what in runs:
@@ -442,6 +449,11 @@ def c09(ctx, replay):
         caught["WSConn-" + n] = ("was violated" in out or "were violated" in out)
         if not caught["WSConn-" + n]:
             raise Infra("model regression: %s no longer violates its liveness property" % n)
+    # "is this timer needed?": without the control-write timer the same configuration must NOT terminate
+    rec, out = ctx.tlc("WSConn", "WSConn.stall-nowritetimer.cfg", expect_ok=False, name="WSConn-stall-without-the-control-write-timer", timeout=2400)
+    caught["WSConn-stall-nowritetimer"] = ("was violated" in out or "were violated" in out)
+    if not caught["WSConn-stall-nowritetimer"]:
+        raise Infra("model regression: without the 5 s control-write timer the stalled configuration still terminates")
     # (B) adversary scripts x local states against the real code with real timers
     rows = ctx.path("cb.ndjson")
     ctx.tlc("WSCloseBoundRows", "CloseBoundRows.cfg", env={"OUT": rows}, workers=2, name="close-bound-table")
@@ -661,6 +673,19 @@ def c18(ctx, replay):
     args = ["-rows", rows, "-seed", ctx.seed]
     args += ["-units", "1,4096"] if ctx.quick() else ["-units", "1,4096,65537"]
     rep = ctx.drive("netconn", args, timeout=3600)
+    ctx.absorb(rep)
+    # the adapter as a byte stream over every inbound stream the receive specification generates (fragments, empty fragments,
+    # interleaved control frames, compressed messages incl. ones the peer ends with a BFINAL block), whole and cut at every offset:
+    # the bytes handed over are the complete messages in order (+ a prefix of the cut one), nothing dropped, never a clean EOF
+    decoder_model(ctx, 3)
+    lp = letters(ctx)
+    n = 3 if ctx.quick() else 4
+    off, on = ctx.path("c04off.ndjson"), ctx.path("c04on.ndjson")
+    recv_rows(ctx, "c04", n, False, off)
+    recv_rows(ctx, "c04", n, True, on)
+    cargs = ["-letters", lp, "-rows-off", off, "-rows-on", on, "-seed", ctx.seed, "-apis", "netconn", "-scales", "0"]
+    cargs += ["-bufs", "1,512", "-modes-on", "ct"] if ctx.quick() else ["-bufs", "1,7,512,4096", "-modes-on", "ct,nct", "-stride", "2"]
+    rep = ctx.drive("cut", cargs, timeout=3600)
     ctx.absorb(rep)
     ctx.extra["exhaustive"] = True
     ctx.extra["rule"] = ("every enabled behaviour of at most N operations of spec/WSNetConn.tla over {peer sends 0/1/3 units of the right type or a wrong-type message, "
